@@ -55,6 +55,10 @@ where
 
     // Batch size for draining commit notifications
     max_batch_size: usize,
+
+    /// Highest log index already handed to the SM worker. `last_applied` only advances once the
+    /// worker has applied a chunk, so a range computed from it alone overlaps chunks still queued.
+    last_sent: std::sync::atomic::AtomicU64,
 }
 
 #[async_trait]
@@ -134,6 +138,7 @@ where
             sm_apply_tx: deps.sm_apply_tx,
             shutdown_signal: deps.shutdown_signal,
             max_batch_size: deps.max_batch_size,
+            last_sent: std::sync::atomic::AtomicU64::new(0),
         }
     }
 
@@ -153,7 +158,14 @@ where
         let Some(range) = pending_range else {
             return Ok(());
         };
-        let entries = self.raft_log.get_entries_range(range)?;
+        // Skip what an earlier round already sent to the SM worker but the worker has not applied
+        // yet: re-sending it would apply those entries (and config changes) a second time.
+        let start = (*range.start())
+            .max(self.last_sent.load(std::sync::atomic::Ordering::Acquire).saturating_add(1));
+        if start > *range.end() {
+            return Ok(());
+        }
+        let entries = self.raft_log.get_entries_range(start..=*range.end())?;
 
         debug!(
             "[Node-{}] commit handler process batch, length = {}",
@@ -284,6 +296,9 @@ where
     ) -> Result<()> {
         if !batch.is_empty() {
             let entries = std::mem::take(batch);
+            if let Some(last) = entries.last() {
+                self.last_sent.store(last.index, std::sync::atomic::Ordering::Release);
+            }
             trace!(
                 "[Node-{}] Sending batch to SM Worker: {} entries",
                 self.my_id,
